@@ -172,6 +172,20 @@ def solve_one(ob, timeout_ms, axioms, known, out, replay_key, env):
         # known-finding regions: re-solve with the region excluded
         for kf in known.get(ob.name, []):
             pass
+    if v == "unsat" and os.environ.get("PYVC_TIER") == "thorough" and ob.backend == "z3":
+        # thorough tier: every obligation z3 discharges is put to the second solver as well
+        try:
+            s2 = z3.Solver()
+            for h in list(axioms) + list(ob.hyps):
+                s2.add(h)
+            s2.add(z3.Not(ob.goal))
+            v2 = vcgen.run_cvc5(s2.to_smt2(), 10000)
+        except Exception:
+            v2 = "unknown"
+        rec["second_solver"] = {"unsat": "agrees", "unknown": "no answer", "sat": "DISAGREES"}.get(v2, "no answer")
+        if v2 == "sat":
+            rec["verdict"] = v = "unknown"          # two solvers disagree: not counted as discharged, never a violation
+            rec["meta"]["solver"] = "z3 says unsat, cvc5 says sat: undecided"
     if len([o for o in out["obligations"]]) < 3 or v != "unsat":
         try:
             s = z3.Solver()
